@@ -79,17 +79,11 @@ SEEDS["C05_exit_swallows"] = ("C05", [(D, """    def __exit__(self, exc_type, ex
         pop_shape_memo()""", """    def __exit__(self, exc_type, exc_value, exc_tb):
         pop_shape_memo()
         return True""")], "C05.2")
-SEEDS["C05_async_wrapper_awaits_inside_context"] = ("C05", [(D, """            @ft.wraps(fn)
-            def wrapped_fn(*args, **kwargs):  # pyright: ignore
-                __tracebackhide__ = True
-                bound = signature.bind(*args, **kwargs)
+SEEDS["C05_async_wrapper_awaits_inside_context"] = ("C05", [(D, """                bound = signature.bind(*args, **kwargs)
                 bound.apply_defaults()
                 memos = push_shape_memo(bound.arguments)
                 try:
-                    return fn(*args, **kwargs)""", """            @ft.wraps(fn)
-            def wrapped_fn(*args, **kwargs):  # pyright: ignore
-                __tracebackhide__ = True
-                bound = signature.bind(*args, **kwargs)
+                    return fn(*args, **kwargs)""", """                bound = signature.bind(*args, **kwargs)
                 bound.apply_defaults()
                 memos = push_shape_memo(bound.arguments)
                 try:
@@ -535,7 +529,11 @@ SEEDS["C19_config_hoisted"] = ("C19", [(D, GUARD, """                if (
                     or getattr(wrapped_fn_holder[0](), "__no_type_check__", False)
                 ):
                     return fn(*args, **kwargs)
-"""), (D, """            wrapped_fn_holder = []  # Avoids introducing a reference cycle.""", """            wrapped_fn_holder = []  # Avoids introducing a reference cycle.
+"""), (D, """                return out
+
+            wrapped_fn_holder = []  # Avoids introducing a reference cycle.""", """                return out
+
+            wrapped_fn_holder = []  # Avoids introducing a reference cycle.
             disabled = config.jaxtyping_disable""")], "C19.1")
 SEEDS["C19_case_sensitive_switch"] = ("C19", [(C, """        if value.lower() in ("0", "false"):
             return False
@@ -595,6 +593,42 @@ TWINS["C19_twin_demorgan"] = ("C19", [(D, GUARD + """
                 finally:
                     pop_shape_memo()
 """)])
+# Since the repair of F13 the guard text occurs twice in jaxtyped (old-style wrapper first, new-style second): the seeds above are
+# pinned to the new-style wrapper by the comment that follows its guard; `_oldstyle` copies break the first occurrence.
+_TAIL_NEW = "\n                # Raise bind-time errors before we do any shape analysis."
+for _k in ("C19_disable_flag_ignored", "C19_guard_and_instead_of_or", "C19_guard_negated", "C19_passthrough_drops_kwargs", "C19_config_hoisted"):
+    _p, _edits, _rule = SEEDS[_k]
+    if _k != "C19_config_hoisted":
+        SEEDS[_k + "_oldstyle"] = (_p, list(_edits), _rule)
+    SEEDS[_k] = (_p, [(_f, _o + _TAIL_NEW, _n + _TAIL_NEW) if _o == GUARD else (_f, _o, _n) for _f, _o, _n in _edits], _rule)
+_p, _edits = TWINS["C19_twin_reordered_atoms"]
+TWINS["C19_twin_reordered_atoms_oldstyle"] = (_p, list(_edits))
+TWINS["C19_twin_reordered_atoms"] = (_p, [(_f, _o + _TAIL_NEW, _n + _TAIL_NEW) for _f, _o, _n in _edits])
+# F13 re-introduced: the old-style wrapper without the guard / with a guard that lets the push through
+SEEDS["C19_oldstyle_guard_removed"] = ("C19", [(D, GUARD + """
+                bound = signature.bind(*args, **kwargs)""", """                bound = signature.bind(*args, **kwargs)""")], "C19.1")
+SEEDS["C19_oldstyle_guard_after_push"] = ("C19", [(D, GUARD + """
+                bound = signature.bind(*args, **kwargs)
+                bound.apply_defaults()
+                memos = push_shape_memo(bound.arguments)
+""", """                bound = signature.bind(*args, **kwargs)
+                bound.apply_defaults()
+                memos = push_shape_memo(bound.arguments)
+""" + GUARD)], "C19.1")
+SEEDS["C19_oldstyle_guard_lacks_config"] = ("C19", [(D, """                if (
+                    config.jaxtyping_disable
+                    or getattr(fn, "__no_type_check__", False)
+                    or getattr(wrapped_fn_holder[0](), "__no_type_check__", False)
+                ):
+                    return fn(*args, **kwargs)
+
+                bound = signature.bind(""", """                if (
+                    getattr(fn, "__no_type_check__", False)
+                    or getattr(wrapped_fn_holder[0](), "__no_type_check__", False)
+                ):
+                    return fn(*args, **kwargs)
+
+                bound = signature.bind(""")], "C19.1")
 TWINS["C19_twin_parser_restructured"] = ("C19", [(C, """    if isinstance(value, bool):
         return value
     elif isinstance(value, str):
@@ -2197,3 +2231,69 @@ SEEDS["C20_reducer_falls_back_to_merged_fields"] = ("C20", [(A, """        retur
             item = (x.array_type, x.dim_str)
         return x.dtype.__getitem__, (item,)""")], "C20")
 SEEDS["C17_skip_leaves_seen_by_id"] = ("C17", SEEDS["C16_skip_already_seen_leaf_objects"][1], "C17.4")
+
+
+# ------------------------------------------------------------------------- batch 11 / F13 rules
+# C01.3 staleness: the eval namespace is a copy taken once while the loop goes on binding axes into the copied memo
+SEEDS["C01_eval_namespace_copied_once"] = ("C01", [(A, """    assert len(cls_dims) == len(obj_shape)
+    for cls_dim, obj_size in zip(cls_dims, obj_shape):""", """    assert len(cls_dims) == len(obj_shape)
+    sizes = single_memo.copy()
+    for cls_dim, obj_size in zip(cls_dims, obj_shape):"""), (A, "                eval_size = eval(elem, single_memo.copy())", "                eval_size = eval(elem, sizes)")], "C01.3")
+TWINS["C01_twin_argument_namespace_copied_once"] = ("C01", [(A, """    assert len(cls_dims) == len(obj_shape)
+    for cls_dim, obj_size in zip(cls_dims, obj_shape):""", """    assert len(cls_dims) == len(obj_shape)
+    arguments = arg_memo.copy()
+    for cls_dim, obj_size in zip(cls_dims, obj_shape):"""), (A, """                elem = eval(f"f'{cls_dim.elem}'", arg_memo.copy())""", """                elem = eval(f"f'{cls_dim.elem}'", arguments)""")])
+# C20.1 exact-type registration / C20.8 process-local tables
+SEEDS["C20_submetaclass_not_registered"] = ("C20", [("@diff", "benign/V1/1.diff", None), (A, "copyreg.pickle(_MetaVariadicArray, _pickle_array_annotation)\n", "")], "C20.1")
+SEEDS["C20_namespace_from_registration_order"] = ("C20", [(A, "def _dtype_is_numpy_struct_array(dtype):", """_name_ids: dict = {}
+
+
+def _name_id(name):
+    return _name_ids.setdefault(name, len(_name_ids))
+
+
+def _dtype_is_numpy_struct_array(dtype):"""), (A, "    return (array_type, name, dtypes, dims, index_variadic, dim_str)", "    return (array_type, name, dtypes, dims, index_variadic, dim_str + ' ' * _name_id(name))")], "C20.8")
+TWINS["C20_twin_pure_memo_table_while_building"] = ("C20", [(A, "def _dtype_is_numpy_struct_array(dtype):", """_type_strs: dict = {}
+
+
+def _type_str(array_type):
+    try:
+        return _type_strs[array_type]
+    except (KeyError, TypeError):
+        pass
+    try:
+        out = array_type.__name__
+    except AttributeError:
+        return repr(array_type)
+    _type_strs[array_type] = out
+    return out
+
+
+def _dtype_is_numpy_struct_array(dtype):"""), (A, """    try:
+        type_str = array_type.__name__
+    except AttributeError:
+        type_str = repr(array_type)
+    if _array_name_format""", """    type_str = _type_str(array_type)
+    if _array_name_format""")])
+
+
+def _independent_seeds():
+    """Every independent seed (seeded/<PROP>_<k>/) that the check of its own property detects is also a self-validation seed: the
+    instances confirmed once stay the reference for any later change of the rules.  (A patch that no longer applies to the current
+    tree is reported as skipped, not as a failure.)"""
+    import glob
+    import json
+    import os
+
+    here = os.path.dirname(os.path.dirname(os.path.abspath(__file__)))
+    for d in sorted(glob.glob(os.path.join(here, "seeded", "C[0-9][0-9]_*"))):
+        try:
+            meta = json.load(open(os.path.join(d, "meta.json"), encoding="utf-8"))
+        except (OSError, ValueError):
+            continue
+        p = meta.get("property")
+        if p and p in (meta.get("detected_by") or []):
+            SEEDS["indep_" + os.path.basename(d)] = (p, [("@diff", os.path.join("seeded", os.path.basename(d), "patch.diff"), None)], p)
+
+
+_independent_seeds()
